@@ -1,6 +1,6 @@
 package main
 
-func init() { register("C08", checkC08) }
+func init() { register("C08", checkC08, cfgLinux386) }
 
 func checkC08(p *Program, tier string) *Result {
 	r := newResult("C08")
